@@ -13,3 +13,4 @@ CONSTANTS
  OpenFlags = {}
  Lazy = FALSE
  TapeRep = 0
+ PrefixLen = 0
